@@ -248,6 +248,9 @@ func (r *transport) handleUnrecognizedMethod(
 		if err != nil {
 			return nil, err
 		}
+		if resp.Header == nil {
+			resp.Header = make(http.Header)
+		}
 		internal.CacheStatusBypass.ApplyTo(resp.Header)
 		r.logger.LogCacheBypass(
 			"Bypass; unrecognized (safe) method, served from upstream.",
@@ -260,6 +263,9 @@ func (r *transport) handleUnrecognizedMethod(
 	resp, err := r.upstream.RoundTrip(req)
 	if err != nil {
 		return nil, err
+	}
+	if resp.Header == nil {
+		resp.Header = make(http.Header)
 	}
 	if internal.IsNonErrorStatus(resp.StatusCode) {
 		refs, _ := r.cache.GetRefs(urlKey)
@@ -573,6 +579,9 @@ func (r *transport) roundTripTimed(
 	resp, err = r.upstream.RoundTrip(req)
 	end = r.clock.Now()
 	if resp != nil {
+		if resp.Header == nil {
+			resp.Header = make(http.Header) // an upstream may leave it nil; the cache writes to it
+		}
 		_ = internal.FixDateHeader(resp.Header, end)
 	}
 	return
